@@ -4,5 +4,5 @@ tier=$1; shift
 cd "$(dirname "$0")/.."
 for p in "$@"; do
   s=$(date +%s); ./check $p $tier > build/some_$p.out 2>&1; rc=$?; e=$(date +%s)
-  echo "$p $tier rc=$rc $((e-s))s $(grep -c '^VIOLATION' build/some_$p.out) viol $(grep -c '^KNOWN-FINDING' build/some_$p.out) known"
+  echo "$p $tier rc=$rc $((e-s))s $(grep -c '^VIOLATION' build/some_$p.out) viol $(grep -c '^KNOWN-FINDING' build/some_$p.out) known $(grep -c '^MODEL-DRIFT' build/some_$p.out) drift"
 done
